@@ -27,6 +27,8 @@ specs = {
    body='''    import ecframe
     ecframe.run(ctx, model_ok, deep)
     F.run_suites(ctx, model_ok, deep, [
+        ("header-history", S.header_history_suite, S.falsify_accept,
+         "a genuine token, then on the same checker (or another one of the thread) a token whose header has the same length and the same first k base64url characters but names another algorithm / none / no algorithm of the library, or is the first header with characters appended, signed correctly over its own text; then the genuine token again; k and the header length on both sides of 16...4096 and of every size new in the source; HS256 and RS256", False),
         ("programs", S.programs_suite, S.falsify_programs,
          "110 (quick) / 1500 (thorough) random programs of 55-70 API calls over 3 checkers, 3 builders, every pool key (with/without alg attribute, private/public), callbacks, clocks and both providers; every answer compared with the model; 60% of the verifies and generates are asked of a fresh twin configured by the same calls first", False),
         ("verify-sig-openssl", lambda w, p, t, r: S.verify_sig(w, p, t, r, "openssl"), S.falsify_accept,
@@ -43,6 +45,8 @@ specs = {
    level="Lean theorems for every Env/callback/token: with a key in force acceptance needs a non-empty third segment and a header alg other than none; without a key only the exact four bytes none with an empty third segment and no configured alg. Builder: with a key in force after the callback generate fails or signs with the pinned algorithm, without one it emits only alg-none tokens ending in an empty segment (all callbacks). Tied to the code by the exhaustive matrix (token shapes with absent/garbage/valid signatures, alg none/None/NONE/other/missing) on setkey and callback routes, and by exhaustive builder key/alg routes.",
    assume=[],
    body='''    F.run_suites(ctx, model_ok, deep, [
+        ("header-history", S.header_history_suite, S.falsify_accept,
+         "a genuine token, then on the same checker (or another one of the thread) a token whose header has the same length and the same first k base64url characters but names another algorithm / none / no algorithm of the library, or is the first header with characters appended, signed correctly over its own text; then the genuine token again; k and the header length on both sides of 16...4096 and of every size new in the source; HS256 and RS256", False),
         ("programs", S.programs_suite, S.falsify_programs,
          "110 (quick) / 1500 (thorough) random programs of 55-70 API calls over 3 checkers, 3 builders, every pool key (with/without alg attribute, private/public), callbacks, clocks and both providers; every answer compared with the model; 60% of the verifies and generates are asked of a fresh twin configured by the same calls first", False),
         ("alg-matrix", None, S.falsify_accept,
@@ -97,6 +101,8 @@ specs = {
          "all sequences of length 1-2 and 500 of length 3 (quick) / all to length 4 (thorough) over {valid, badsig, expired, nodot, onedot, badhdr, noalg, badpay, unsigned, NULL, empty, error_clear}, plus random sequences of length 5-60; reference = same token on a fresh checker", False),
         ("key-lifecycle", S.key_lifecycle_suite, S.falsify_accept,
          "per key type and provider: one keyring slot loaded, used, freed and re-loaded 6 (quick) / 12 (thorough) times with two keys of the same type and size in turn; after every re-load the retired key's token must fail and the current key's must verify", False),
+        ("header-history", S.header_history_suite, S.falsify_accept,
+         "a genuine token, then on the same checker (or another one of the thread) a token whose header has the same length and the same first k base64url characters but names another algorithm / none / no algorithm of the library, or is the first header with characters appended, signed correctly over its own text; then the genuine token again; k and the header length on both sides of 16...4096 and of every size new in the source; HS256 and RS256", False),
         ("programs", S.programs_suite, S.falsify_programs,
          "110 (quick) / 1500 (thorough) random programs of 55-70 API calls over 3 checkers, 3 builders, every pool key (with/without alg attribute, private/public), callbacks, clocks and both providers; every answer compared with the model; 60% of the verifies and generates are asked of a fresh twin configured by the same calls first", False),
         ("builder-reuse", S.builder_reuse_suite, S.falsify_builder_reuse,
@@ -128,6 +134,8 @@ specs = {
    level="Lean theorems for every callback function: returning 0 with key/alg untouched leaves the whole outcome unchanged whatever it did to the token object; non-zero return always fails; selected (alg,key) passes the setkey table. Tied to the code by scripted callback programs (set/replace/delete/delete-all of claims and headers, whole-object JSON merge, reads) x claim-check configurations x passing/failing tokens, with vs without the callback on the real library.",
    assume=[],
    body='''    F.run_suites(ctx, model_ok, deep, [
+        ("header-history", S.header_history_suite, S.falsify_accept,
+         "a genuine token, then on the same checker (or another one of the thread) a token whose header has the same length and the same first k base64url characters but names another algorithm / none / no algorithm of the library, or is the first header with characters appended, signed correctly over its own text; then the genuine token again; k and the header length on both sides of 16...4096 and of every size new in the source; HS256 and RS256", False),
         ("programs", S.programs_suite, S.falsify_programs,
          "110 (quick) / 1500 (thorough) random programs of 55-70 API calls over 3 checkers, 3 builders, every pool key (with/without alg attribute, private/public), callbacks, clocks and both providers; every answer compared with the model; 60% of the verifies and generates are asked of a fresh twin configured by the same calls first", False),
         ("callback-admission", S.callback_admission_suite, S.falsify_accept,
